@@ -25,7 +25,7 @@
     input.  [OEndBlockFull h now groups ests f pf] is the whole EndBlocker (createBatch, tally of
     the observed claims [groups] per active chain, the elected estimates [ests], the timeout
     sweep) under an error oracle [f] and a PANIC oracle [pf]. *)
-From Coq Require Import List ZArith Bool String Sorted.
+From Coq Require Import List ZArith Bool String Sorted Permutation.
 From Paloma Require Import Skyway.Bridge Skyway.BridgeProofs Skyway.BridgeOrder Skyway.BridgeExamples.
 From Paloma Require Gen.C01.
 Import ListNotations.
@@ -296,3 +296,34 @@ Theorem deferred_commit_reads_the_result :
     ["BuildOutgoingTXBatch"; "CancelOutgoingTXBatch"; "OutgoingTxBatchExecuted"; "UpdateBatchGasEstimate"]%string.
 Proof. exact code_shape3_proof. Qed.
 Print Assumptions deferred_commit_reads_the_result.
+
+(** Round 4: the chain is restarted from an exported genesis ([OGenesis] = ExportGenesis, module
+    store wiped, InitGenesis) in the middle of a history.  [OGenesis] is an operation like any other,
+    so [escrow_eq_pending], [transfer_in_exactly_one_place], [unaccepted_transfer_is_nowhere] and
+    [supply_delta_only_attested] above hold for histories with round trips at any point, also after
+    governance / token admins re-pointed a denom while transfers of the old contract wait
+    ([BridgeExamples.genesis_round_trip_nonvacuous]).  Across the round trip itself: the pending
+    records are the same records (pool, batches and all pending as multisets — the store re-sorts
+    them under the same keys; [pool_in_fee_order] gives the order), and nothing else moves. *)
+Theorem genesis_round_trip_keeps_every_pending_transfer : forall s,
+  let s' := fst (step s OGenesis) in
+  snd (step s OGenesis) = Ok /\
+  Permutation (pool s') (pool s) /\ Permutation (batches s') (batches s) /\
+  Permutation (pending s') (pending s) /\
+  table s' = table s /\ bal s' = bal s /\ escrow s' = escrow s /\ comm s' = comm s /\ supply s' = supply s /\
+  last_tx s' = last_tx s /\ last_batch s' = last_batch s /\ refunded s' = refunded s /\ burned s' = burned s.
+Proof. exact genesis_round_trip_proof. Qed.
+Print Assumptions genesis_round_trip_keeps_every_pending_transfer.
+
+(** what ExportGenesis reads and InitGenesis writes, re-read from the source on every check: the
+    whole pool and all batches through whole-prefix iterators, the denom table (one or, after the
+    fix, both indexes), no entry skipped. *)
+Theorem genesis_code_shape :
+  (Gen.C01.genesis_export_reads = ["GetUnbatchedTransactions"; "GetOutgoingTxBatches"; "GetAllERC20ToDenoms"]%string
+   \/ Gen.C01.genesis_export_reads = ["GetUnbatchedTransactions"; "GetOutgoingTxBatches"; "GetAllERC20ToDenoms"; "GetAllERC20ToDenomsByContract"]%string)
+  /\ Gen.C01.genesis_export_skips_entries = false
+  /\ Gen.C01.pool_read_is_whole_prefix = true /\ Gen.C01.batches_read_is_whole_prefix = true
+  /\ Gen.C01.order_InitGenesis = ["setID"; "setID"; "initBridgeDataFromGenesis"; "addUnbatchedTX"; "setDenomToERC20"]%string
+  /\ Gen.C01.order_initBridgeDataFromGenesis = ["StoreBatch"]%string.
+Proof. exact code_shape4_proof. Qed.
+Print Assumptions genesis_code_shape.
